@@ -1,4 +1,3 @@
 (* C07 — malformed input ends in an error, and the error is permanent.
-   The text reader's statements live in Props/C07text.v (re-exported); the binary reader's in
-   Props/C07bin.v when present.  Statements only. *)
-From IonV Require Export Props.C07text.
+   Binary reader: Props/C07bin.v; text reader: Props/C07text.v.  Statements re-exported. *)
+From IonV Require Export Props.C07bin Props.C07text.
